@@ -103,7 +103,11 @@ def make_archive(spec):
     from ribs.archives import CVTArchive, GridArchive, SlidingBoundariesArchive
     dtype = DT[spec["dtype"]]
     ef = extra_fields(spec["extras"]) or None
-    kw = dict(solution_dim=spec["sol_dim"], qd_score_offset=spec["offset"], seed=spec["seed"], dtype=dtype, extra_fields=ef)
+    adt = dtype
+    if spec.get("odtype"):
+        # per-field dtypes (the dict form of `dtype`): objective (and with it threshold) in another float type than solution / measures
+        adt = {"solution": dtype, "objective": DT[spec["odtype"]], "measures": dtype}
+    kw = dict(solution_dim=spec["sol_dim"], qd_score_offset=spec["offset"], seed=spec["seed"], dtype=adt, extra_fields=ef)
     if spec["kind"] != "sliding" and spec.get("tmin") is not None:
         kw["learning_rate"] = spec["lr"]
         kw["threshold_min"] = spec["tmin"]
@@ -146,7 +150,7 @@ def batch_arrays(spec, cands, container="nd"):
     dtype = DT[spec["dtype"]]
     n = len(cands)
     sol = np.array([enc_solution(c[0], spec["sol_dim"]) for c in cands], dtype=dtype).reshape(n, spec["sol_dim"])
-    obj = np.array([c[1] for c in cands], dtype=dtype)
+    obj = np.array([c[1] for c in cands], dtype=DT[spec.get("odtype") or spec["dtype"]])
     mea = np.array([c[2] for c in cands], dtype=dtype).reshape(n, measure_dim(spec))
     if container == "list":
         sol, obj, mea = sol.tolist(), obj.tolist(), mea.tolist()
@@ -275,13 +279,18 @@ def cells_of(archive, spec, cands, measures=None):
     return [int(x) for x in archive.index_of(measures)]
 
 
+def odt(spec):
+    """the dtype of objective, threshold, feedback values and statistics (differs from spec["dtype"] for dict-dtype archives)"""
+    return DT[spec.get("odtype") or spec["dtype"]]
+
+
 def model_cfg(spec):
-    return [n_cells(spec), [] if spec.get("tmin") is None else [F(DT[spec["dtype"]](spec["tmin"]))],
-            F(DT[spec["dtype"]](1.0 if spec.get("lr") is None else spec["lr"])), F(DT[spec["dtype"]](spec["offset"]))]
+    return [n_cells(spec), [] if spec.get("tmin") is None else [F(odt(spec)(spec["tmin"]))],
+            F(odt(spec)(1.0 if spec.get("lr") is None else spec["lr"])), F(odt(spec)(spec["offset"]))]
 
 
 def mcand(cell, c, spec):
-    return [cell, F(DT[spec["dtype"]](c[1])), c[0]]
+    return [cell, F(odt(spec)(c[1])), c[0]]
 
 
 def apply_op(archive, spec, op, table, obs=True):
@@ -299,7 +308,7 @@ def apply_op(archive, spec, op, table, obs=True):
             info = archive.add(**kw)
             if not cands and not info:
                 # SlidingBoundariesArchive.add returns an empty dict for an empty batch (no rows to report)
-                info = {"status": np.array([], dtype=np.int32), "value": np.array([], dtype=DT[spec["dtype"]])}
+                info = {"status": np.array([], dtype=np.int32), "value": np.array([], dtype=odt(spec))}
             ent["ret"] = {"status": [int(x) for x in info["status"]], "value": [F(x) for x in info["value"]],
                           "value_dtype": np.asarray(info["value"]).dtype.name, "keys": sorted(info.keys())}
         except Exception as e:  # noqa
@@ -405,7 +414,7 @@ def compare_history(driver, spec, ops, exact_values=True, stats_mode="exact", ch
 def compare_trace(driver, spec, ops, trace, mops, exact_values=True, stats_mode="exact", check_value=True):
     """compares an implementation trace (as produced by run_impl for the valid operations `ops`) with the model run on `mops`"""
     mout = model_outputs(driver, spec, mops)
-    dtype = DT[spec["dtype"]]
+    dtype = odt(spec)
     k = 0
     for step, (op, ent) in enumerate(zip(ops, trace)):
         # returned feedback
@@ -643,7 +652,7 @@ def load_op(spec, pre):
     if isinstance(pre["stats"]["qd"], float):   # overflowed in the implementation's dtype
         sm = Fraction(0)
     else:
-        sm = pre["stats"]["qd"] + n * F(DT[spec["dtype"]](spec["offset"])) if n else Fraction(0)
+        sm = pre["stats"]["qd"] + n * F(odt(spec)(spec["offset"])) if n else Fraction(0)
     rows = [[r[0], r[2], r[3], r[1]] for r in pre["rows"]]
     best = [] if pre["best"] is None else [[pre["best"][0], pre["best"][2], pre["best"][3], pre["best"][1]]]
     mx = [] if pre["stats"]["max"] is None else [pre["stats"]["max"]]
@@ -654,9 +663,9 @@ def compare_stepwise(driver, spec, ops, ulps=None, check_stats=True, stats_scale
     """Every op is checked against the model started from the implementation's own pre-state.
     Decisions (status), values, objectives, ids, obj_max and untouched thresholds must match exactly; newly computed
     thresholds and the floating-point statistics within `ulps` units in the last place of the op's magnitude."""
-    dtype = DT[spec["dtype"]]
+    dtype = odt(spec)
     if ulps is None:
-        ulps = 32 if spec["dtype"] == "f" else 16
+        ulps = 32 if dtype == np.float32 else 16
     trace, mops_all, archive, table = run_impl(spec, ops)
     pre = EMPTY_OBS
     k = 0
